@@ -13,21 +13,22 @@ import (
 
 // CacheCfg describes one cache under test.
 type CacheCfg struct {
-	NumCounters        int64  `json:"num_counters"`
-	MaxCost            int64  `json:"max_cost"`
-	BufferItems        int64  `json:"buffer_items"`
-	Metrics            bool   `json:"metrics"`
-	IgnoreInternalCost bool   `json:"ignore_internal_cost"`
-	CostFn             string `json:"cost_fn,omitempty"`       // "", "keycost": Config.Cost derives the cost from the value's key
-	ShouldUpdate       string `json:"should_update,omitempty"` // "", "parity": refuse when the new value's sequence number is odd
-	KeyKind            string `json:"key_kind"`
-	Collide            int    `json:"collide,omitempty"` // >0: KeyToHash maps key index i to primary hash i mod Collide (+base), conflict i+1
-	SetBuf             int    `json:"set_buf,omitempty"`
-	TTLTick            int64  `json:"ttl_tick_s,omitempty"`
-	NoCallbacks        bool   `json:"no_callbacks,omitempty"`
-	NKeys              int    `json:"nkeys"`
-	KeyZero            bool   `json:"key_zero,omitempty"`       // integer key kinds start at 0: key index 0 is the key 0, whose primary hash is 0
-	AllowHashDup       bool   `json:"allow_hash_dup,omitempty"` // do not insist on distinct primary hashes (C01 provenance only needs values)
+	NumCounters        int64       `json:"num_counters"`
+	MaxCost            int64       `json:"max_cost"`
+	BufferItems        int64       `json:"buffer_items"`
+	Metrics            bool        `json:"metrics"`
+	IgnoreInternalCost bool        `json:"ignore_internal_cost"`
+	CostFn             string      `json:"cost_fn,omitempty"`       // "", "keycost": Config.Cost derives the cost from the value's key
+	ShouldUpdate       string      `json:"should_update,omitempty"` // "", "parity": refuse when the new value's sequence number is odd
+	KeyKind            string      `json:"key_kind"`
+	Collide            int         `json:"collide,omitempty"` // >0: KeyToHash maps key index i to primary hash i mod Collide (+base), conflict i+1
+	SetBuf             int         `json:"set_buf,omitempty"`
+	TTLTick            int64       `json:"ttl_tick_s,omitempty"`
+	NoCallbacks        bool        `json:"no_callbacks,omitempty"`
+	NKeys              int         `json:"nkeys"`
+	HashHook           func(i int) `json:"-"`                        // called inside Config.KeyToHash with the key index (a user function that may be slow)
+	KeyZero            bool        `json:"key_zero,omitempty"`       // integer key kinds start at 0: key index 0 is the key 0, whose primary hash is 0
+	AllowHashDup       bool        `json:"allow_hash_dup,omitempty"` // do not insist on distinct primary hashes (C01 provenance only needs values)
 }
 
 // Event kinds.
@@ -207,10 +208,17 @@ func buildCache[K ristretto.Key](l *Lab, mk func(int) K, idx func(K) int) (Cache
 	if cfg.ShouldUpdate == "parity" {
 		conf.ShouldUpdate = func(cur, prev uint64) bool { return ValSeq(cur)%2 == 0 }
 	}
-	if cfg.Collide > 0 {
+	if cfg.Collide > 0 || cfg.HashHook != nil {
 		c := cfg.Collide
+		if c == 0 {
+			c = 1 << 30 // no collisions
+		}
+		hh := cfg.HashHook
 		conf.KeyToHash = func(k K) (uint64, uint64) {
 			i := idx(k)
+			if hh != nil {
+				hh(i)
+			}
 			return 0x5000 + uint64(i%c), uint64(i + 1)
 		}
 	}
